@@ -575,7 +575,7 @@ impl Model {
 
     fn apply_inner(&mut self, op: &Op, fx: &mut Effects) -> Outcome {
         match op {
-            Op::AddResource { id, text } => {
+            Op::AddResource { id, text, .. } => {
                 if id.starts_with('!') || id.is_empty() {
                     return Outcome::Skip;
                 }
